@@ -9,8 +9,8 @@ using namespace prog;
 extern char **environ;
 
 static const Pool &pool(hz::Ctx &ctx) { static Pool p = build_pool(ctx.seed, 2); return p; }
-static std::string asmline_path() { const char *e = getenv("VERIF_ASMLINE"); return e ? e : "/verif/build/plain/asmline"; }
-static std::string tmpdir() { static std::string d; if (d.empty()) { d = "/verif/build/tmp"; mkdir("/verif/build", 0755); mkdir(d.c_str(), 0755); d += "/c" + std::to_string(getpid()); mkdir(d.c_str(), 0755); } return d; }
+static std::string asmline_path() { const char *e = getenv("VERIF_ASMLINE"); if (e) return e; const char *root = getenv("VERIF_ROOT"); return std::string(root ? root : "/verif") + "/build/plain/asmline"; }
+static std::string tmpdir() { static std::string d; if (d.empty()) { const char *root = getenv("VERIF_ROOT"); std::string rb = std::string(root ? root : "/verif") + "/build"; d = rb + "/tmp"; mkdir(rb.c_str(), 0755); mkdir(d.c_str(), 0755); d += "/c" + std::to_string(getpid()); mkdir(d.c_str(), 0755); } return d; }
 
 struct Spawned { int status = -1; std::string out; bool ok = false; };
 static Spawned spawn(const std::vector<std::string> &argv, const std::string &stdin_data, bool use_stdin) {
@@ -108,12 +108,15 @@ void prop_c20(hz::Ctx &ctx) {
     for (int i : idx) c.lines.push_back(src[(size_t)i % src.size()]);
     if (progkind == 1) c.lines.insert(c.lines.begin() + r.below(c.lines.size() + 1), P.bad[r.below(P.bad.size())]);
     if (progkind == 2) { c.retval = r.next(); char b[64]; snprintf(b, sizeof b, "mov rax, 0x%llx", (unsigned long long)c.retval); c.lines.push_back(b); c.lines.push_back("ret"); }
+    // raw lines of 100 and more characters (long comments, wide indentation): stdin and FILE must still agree
+    if (r.below(4) == 0) { size_t at = r.below(c.lines.size()); if (progkind != 2 || at + 2 < c.lines.size() || true) { int kind = (int)r.below(3); std::string &l = c.lines[at]; if (kind == 0) l += " ; " + std::string(80 + r.below(200), 'c'); else if (kind == 1) l = std::string(90 + r.below(150), ' ') + l; else l += std::string(100 + r.below(100), ' '); } }
     c.p = outs & 1; c.r = progkind == 2 && (outs & 2); c.outkind = (outs >> 2) % 4; static const int CH[] = {0, 0, 0, 2, 3, 7, 16, 64}; c.chunk = CH[chunksel % 8]; static const int BK[] = {0, 0, 0, 2, 5, 16, 32, 4096}; c.brk = BK[brksel % 8];
     c.from_stdin = from_stdin; c.final_newline = nl; return c; },
     rc::gen::container<std::vector<int>>(range(0, 15)), rc::gen::container<std::vector<int>>(range(0, 1 << 20)), rc::gen::weightedElement<int>({{5, 0}, {2, 1}, {4, 2}}), range(0, 16), range(0, 8), range(0, 8), rc::gen::arbitrary<bool>(), range(0, 1 << 30), rc::gen::arbitrary<bool>());
   rc_rounds(ctx, "C20-cli", ctx.thorough() ? 100000 : 10000, 40, [&]() {
     CliCase c = *gen_case; std::string id = ser20(c); if (!ctx.begin(id, cmdline(c))) return;
     int groups = (c.modeflags.empty() ? 0 : 1) + (c.p || c.outkind ? 1 : 0) + (c.chunk || c.brk ? 1 : 0) + (c.r ? 1 : 0);
+    for (auto &l : c.lines) if (l.size() >= 100) { ctx.cls("line:100+chars"); break; }
     ctx.cls(c.from_stdin ? "source:stdin" : "source:file"); ctx.cls(std::string("program:") + (c.progkind == 0 ? "pool" : c.progkind == 1 ? "failing" : "executable")); if (c.p) ctx.cls("flag:-p"); if (c.r) ctx.cls("flag:-r"); if (c.chunk) ctx.cls("flag:-c"); if (c.brk) ctx.cls("flag:-b"); if (c.outkind == 1) ctx.cls("flag:-P"); if (c.outkind == 2) ctx.cls("flag:-o"); if (c.outkind == 3) ctx.cls("output:unwritable"); if (!c.modeflags.empty()) ctx.cls("flag:mode");
     if (groups >= 2 || c.progkind == 1) ctx.nontrivial(id);
     CV v = check20(c);
